@@ -60,7 +60,7 @@ EXPRS = [
 ]
 PARSED = [None if e is None else _LICENSING.parse(e) for e, _ in EXPRS]
 # provision forms of one identifier in LICENSES/
-FORMS = ["absent", "ID.txt", "ID.md", "ID", "sub/ID.txt", "ID+.txt", "ID.txt+license"]
+FORMS = ["absent", "ID.txt", "ID.md", "ID", "sub/ID.txt", "ID+.txt", "ID.txt+license", "ID.txt+license.bak"]
 PROV_IDS = ["MIT", "GPL-3.0", "LicenseRef-x", "Foo", "GPL-2.0-or-later", "Classpath-exception-2.0", "LicenseRef-a_b"]
 FILES = [ROOT / "src" / "a.py", ROOT / "doc" / "b c.txt", ROOT / "ü.rs"]
 
@@ -156,6 +156,9 @@ def listing(prov):
         elif f == "ID.txt+license":
             out.append(str(ROOT / "LICENSES" / f"{pid}.txt"))
             out.append(str(ROOT / "LICENSES" / f"{pid}.txt.license"))
+        elif f == "ID.txt+license.bak":  # a backup of a sidecar: '.license' is a suffix, but not the last one
+            out.append(str(ROOT / "LICENSES" / f"{pid}.txt"))
+            out.append(str(ROOT / "LICENSES" / f"{pid}.txt.license.bak"))
     return out, dirs
 
 
@@ -236,6 +239,9 @@ def model(files, prov):
             entries.append((pid, False, f))
         elif f == "ID+.txt":
             entries.append((pid + "+", True, f))
+        elif f == "ID.txt+license.bak":
+            entries.append((pid, True, f))
+            entries.append((pid + ".txt.license", True, f))  # an entry like any other: named by its stem
     provided = {e[0] for e in entries}
     used = set()
     missing, bad = {}, {}
